@@ -563,11 +563,16 @@ func ruleC14NestedWaits(c *Ctx) {
 						}
 					}
 				case *ssa.Go:
-					mc, ok := in.Call.Value.(*ssa.MakeClosure)
-					if !ok {
+					// the body of the goroutine: a closure, or a function / method of the module started directly
+					var clo *ssa.Function
+					if mc, ok := in.Call.Value.(*ssa.MakeClosure); ok {
+						clo = mc.Fn.(*ssa.Function)
+					} else if fn := in.Call.StaticCallee(); fn != nil && len(fn.Blocks) > 0 {
+						clo = fn
+					}
+					if clo == nil {
 						return
 					}
-					clo := mc.Fn.(*ssa.Function)
 					waits, dones := false, false
 					allInstrs(clo, func(_ *ssa.BasicBlock, cin ssa.Instruction) {
 						var cc *ssa.CallCommon
